@@ -28,11 +28,28 @@ def coeffs(P, g):
     return a, b, c
 
 
+def tangency_margin(P, g):
+    """(m, scale): the equation is  amp*cos(omega+phi) = c  with amp = sqrt(a^2+b^2) = |g_perp|*|n_perp| and
+    c = -|g|^2 - n_z g_z.  m = amp - |c| (> 0: two solutions, < 0: none).  scale = the size of the quantities the equation
+    compares (|g|^2, |n_z g_z| and amp): a solver working to relative precision eps cannot place m better than eps*scale, however
+    it arranges the arithmetic (find_omega_wedge decides on |cos eta| <= 1, the others on the sign of the discriminant)."""
+    a, b, c = coeffs(P, g)
+    amp = math.sqrt(a * a + b * b)
+    scale = max(float(g @ g), abs(P[0][2] * g[2]), amp)
+    return amp - abs(c), scale
+
+
 def expected_count(P, g):
+    """2 / 0, or None inside the band the quantifier excludes from the count claim: within 1e-6 (relative) of tangency, where
+    'relative' is taken with respect to the discriminant (a^2+b^2-c^2 against a^2+b^2) AND with respect to the size of the
+    quantities compared (see tangency_margin); the two coincide unless g is almost parallel to the rotation axis"""
     a, b, c = coeffs(P, g)
     s = a * a + b * b
     d = s - c * c
     if s < 1e-300:
+        return None
+    m, scale = tangency_margin(P, g)
+    if abs(m) <= 1e-6 * scale:
         return None
     if d > 1e-6 * s:
         return 2
@@ -174,19 +191,28 @@ def workload(ctx):
             d = np.array([math.cos(t := rng.uniform(0, 2 * math.pi)), math.sin(t), 0.0])
         else:
             # next to tangency: polar angle from the axis chosen so that the discriminant is small but clearly signed
-            # polar angle from the rotation axis solved so that a^2+b^2 = c^2 (1 + u), u = +-10^-5.5 .. +-10^-1:
-            # just inside (two solutions) or just outside (none) the reachable band
+            # polar angle from the rotation axis solved so that the margin amp - |c| is u * (|g|^2 + |g||n_z|),
+            # u = +-10^-5.5 .. +-10^-1: just inside (two solutions) or just outside (none) the reachable band, by an amount that
+            # is small but resolvable in double precision whatever the direction of g
             d = rng.normal(size=3)
             u = 10 ** rng.uniform(-5.5, -1) * rng.choice([-1, 1])
             nx, ny, nz = P[0]
-            np2 = nx * nx + ny * ny
-            qa, qb, qc = np2 + (1 + u) * nz * nz, 2 * (1 + u) * st * nz, (1 + u) * st * st - np2
-            disc = qb * qb - 4 * qa * qc
-            if disc >= 0 and qa > 0:
-                x = (-qb + rng.choice([-1, 1]) * math.sqrt(disc)) / (2 * qa)
-                if abs(x) < 1:
-                    t = rng.uniform(0, 2 * math.pi)
-                    d = np.array([math.sqrt(1 - x * x) * math.cos(t), math.sqrt(1 - x * x) * math.sin(t), x])
+            npp = math.sqrt(nx * nx + ny * ny)
+            K = u * (st * st + st * abs(nz))
+            found = None
+            for s1 in (1.0, -1.0):
+                A0, B0 = s1 * st * st + K, s1 * nz * st
+                qa, qb, qc = B0 * B0 + st * st * npp * npp, 2 * A0 * B0, A0 * A0 - st * st * npp * npp
+                disc = qb * qb - 4 * qa * qc
+                if disc < 0 or qa <= 0:
+                    continue
+                for sg in (1.0, -1.0):
+                    x = (-qb + sg * math.sqrt(disc)) / (2 * qa)
+                    if abs(x) < 1 and s1 * (st * st + nz * st * x) >= 0 and A0 + B0 * x >= 0:
+                        found = x if found is None or rng.random() < 0.5 else found
+            if found is not None:
+                t = rng.uniform(0, 2 * math.pi)
+                d = np.array([math.sqrt(1 - found * found) * math.cos(t), math.sqrt(1 - found * found) * math.sin(t), found])
         d = d / np.linalg.norm(d)
         if i % 7 == 6 and prev_solve is not None:
             # histories: the previous reflection with one tilt changed, or the previous tilts with a new reflection
